@@ -16,7 +16,7 @@ type In struct {
 // Op is one step of a script.
 //
 //	W  P N     producer of input P gets N more items to write
-//	C  P       producer of input P closes the channel after its pending writes
+//	C  P [M]   producer of input P closes the channel after its pending writes (M=1: every input of priority >= P)
 //	D          drain: wait for quiescence, receive everything that is available, snapshot
 //	R  N       receive at most N items that are available now
 //	F  Picks   release (simple: finish Handle of) the picked in-flight items one after another
